@@ -762,8 +762,20 @@ func genOddNames(r *rng) *Model {
 // injectAliasing makes the protobuf rendering share messages: one relation's
 // rewrite IS another relation's rewrite, or an operand IS its previous sibling.
 // The content of the model does not change (the plan repeats the content).
+func exprSize(e *Expr) int {
+	if e == nil {
+		return 0
+	}
+	n := 1
+	for _, c := range e.Children {
+		n += exprSize(c)
+	}
+	return n
+}
+
 func injectAliasing(r *rng, m *Model) bool {
 	done := false
+	dups := 0
 	for _, t := range m.Types {
 		var ops []*Relation
 		for _, rel := range t.Relations {
@@ -795,9 +807,12 @@ func injectAliasing(r *rng, m *Model) bool {
 				if e == nil {
 					return
 				}
-				if (e.Kind == KUnion || e.Kind == KInter) && len(e.Children) >= 2 && r.chance(25) {
+				if dups < 2 && (e.Kind == KUnion || e.Kind == KInter) && len(e.Children) >= 2 && r.chance(25) {
 					i := 1 + r.intn(len(e.Children)-1)
-					if e.Children[i-1].Kind != KThis {
+					// (small subtrees only: duplicating the rest of a deep chain
+					// at several levels doubles the model each time)
+					if e.Children[i-1].Kind != KThis && exprSize(e.Children[i-1]) <= 6 {
+						dups++
 						e.Children[i] = e.Children[i-1].clone()
 						e.Children[i].Dup = true
 						done = true
